@@ -388,6 +388,11 @@ ASMJIT_FAVOR_SIZE Error init_func_detail(FuncDetail& func, const FuncSignature& 
               if (!cc.has_flag(CallConvFlags::kPassFloatsByVec)) {
                 reg_id = Reg::kIdBad;
               }
+
+              // 80-bit floats (X87 class) are never passed by vector registers, always by stack.
+              if (type_id == TypeId::kFloat80) {
+                reg_id = Reg::kIdBad;
+              }
             }
             else {
               // Pass vector registers via stack if this is a variable arguments function. This should be only used
@@ -411,6 +416,11 @@ ASMJIT_FAVOR_SIZE Error init_func_detail(FuncDetail& func, const FuncSignature& 
               // Vector arguments passed by stack are aligned to their size (16, 32, or 64 bytes).
               if (TypeUtils::is_vec(type_id)) {
                 stack_offset = Support::align_up(stack_offset, size);
+              }
+
+              // 80-bit floats are aligned to 16 bytes in 64-bit mode (and to 4 bytes in 32-bit mode).
+              if (type_id == TypeId::kFloat80 && register_size == 8) {
+                stack_offset = Support::align_up(stack_offset, 16u);
               }
 
               arg.assign_stack_offset(int32_t(stack_offset));
